@@ -359,8 +359,14 @@ impl RemoteStateActor {
         inbox.close();
         // There might be a race between checking `inbox.is_empty()` and `inbox.close()`,
         // so we pull out all messages that are left over.
+        //
+        // A sender that acquired its channel permit before `close()` may enqueue its message
+        // only after we looked at `inbox.len()`, so we must receive until the channel reports
+        // it is closed and drained (`None`), otherwise that message would be lost.
         let mut leftover_msgs = Vec::with_capacity(inbox.len());
-        inbox.recv_many(&mut leftover_msgs, inbox.len()).await;
+        while let Some(msg) = inbox.recv().await {
+            leftover_msgs.push(msg);
+        }
 
         trace!("actor terminating");
         #[cfg(feature = "verif-hooks")]
